@@ -121,6 +121,7 @@ def check(prop, tier, seed):
             for p in range(params["processes"]):
                 tp = os.path.join(workdir, "%s.t%d" % (dom, p))
                 r = C.sh([C.BIN, dom, sp if p == 0 else spr, tp], timeout=1500, env={"VERIF_PROC": str(p)})
+                C.sanitize(tp)
                 if r.returncode != 0:
                     # the code under test brought the process down while a script was replayed
                     # (every script runs to completion in the other checks' single runs)
